@@ -188,6 +188,8 @@ structure AllocSpec (h : Heap) (v : Val) (h' : Heap) (a : Addr) : Prop where
           (d.reachable = false ∧ h.nextAddr ≤ d.addr)
   /-- the list is extended only when no free slot is left -/
   reuse : h'.cells.length ≠ h.cells.length → freeCount h.cells = 1
+  /-- … and `grow_count` moves only with an extension -/
+  sameGrow : h'.cells.length = h.cells.length → h'.growCount = h.growCount
 
 theorem allocate_spec (P : Params) (hP : 0 < P.chunk) {h : Heap} (hw : WF h) (v : Val) :
     AllocSpec h v (h.allocate P v).1 (h.allocate P v).2 := by
@@ -247,14 +249,22 @@ theorem allocate_spec (P : Params) (hP : 0 < P.chunk) {h : Heap} (hw : WF h) (v 
               rcases honly1 d hd with h | h
               · exact Or.inl h
               · exact Or.inr (Or.inl h)
-            reuse := fun hne => absurd hlen1 hne }
+            reuse := fun hne => absurd hlen1 hne
+            sameGrow := fun _ => rfl }
   | none =>
     simp only
     by_cases hz : h.allocCount - 1 = 0
     · simp only [hz, if_true]
       have hwg := WF_growBy P.chunk hw1 (by simp only; omega)
       rw [hz] at hwg
-      refine { wf := hwg, wasFree := ⟨c, hcm, rfl, hcr⟩, others := ?_, filled := ?_, only := ?_, reuse := ?_ }
+      refine { wf := hwg, wasFree := ⟨c, hcm, rfl, hcr⟩, others := ?_, filled := ?_, only := ?_, reuse := ?_,
+               sameGrow := ?_ }
+      rotate_right
+      · intro hl
+        exfalso
+        rw [growBy_cells, List.length_append, freshCells_length] at hl
+        simp only at hl
+        omega
       · intro e he hne
         rw [growBy_cells]
         exact List.mem_append.mpr (Or.inl (hothers1 e he hne))
@@ -285,7 +295,8 @@ theorem allocate_spec (P : Params) (hP : 0 < P.chunk) {h : Heap} (hw : WF h) (v 
                   rcases honly1 d hd with h | h
                   · exact Or.inl h
                   · exact Or.inr (Or.inl h)
-                reuse := fun hne => absurd hlen1 hne }
+                reuse := fun hne => absurd hlen1 hne
+                sameGrow := fun _ => rfl }
 
 /-! ## `write` -/
 
